@@ -15,7 +15,7 @@ RULE = ("random raw dicts (unsorted / repeated labels, mixed label types) and mo
         "spin form (all-ones included), and the exports Q, h, J, qubo_to_matrix, matrix_to_qubo; non-trivial = at least one "
         "key with two or more labels; distinct by canonical JSON")
 THEOREMS = ("C04_pubo_to_puso C04_puso_to_pubo C04_qubo_to_quso C04_quso_to_qubo C04_closed_form_agrees C04_correspondence "
-            "C04_relabel C04_enumerated C04_convert_solution C04_Q C04_hJ C04_matrix")
+            "C04_relabel C04_enumerated C04_renumbered C04_convert_solution C04_Q C04_hJ C04_matrix")
 MODELLED = ("numpy arrays of qubo_to_matrix / matrix_to_qubo enter and leave as exact entry lists; the to_* methods of "
             "PUBO/PUSO/PCBO/PCSO (which go through degree reduction) are covered by C01's correspondence")
 
